@@ -44,7 +44,8 @@ CODES = [  # (value, scheme, meaning)
     ('91723000', 'SCT', 'Anatomical Structure'), ('49755003', 'SCT', 'Morphologically Abnormal Structure'),
     ('4421005', 'SCT', 'Cell'), ('84640000', 'SCT', 'Nucleus'), ('108369006', 'SCT', 'Neoplasm'),
 ]
-MEAS_NAMES = [('42798000', 'SCT', 'Area'), ('81827009', 'SCT', 'Diameter'), ('410668003', 'SCT', 'Length')]
+MEAS_NAMES = [('42798000', 'SCT', 'Area'), ('81827009', 'SCT', 'Diameter'), ('410668003', 'SCT', 'Length'),
+              ('42798000', '99HDV', 'Area')]        # the last one: value of the first under another scheme (a different name)
 UNITS = [('um2', 'UCUM', 'square micrometer'), ('um', 'UCUM', 'micrometer')]
 FAMILIES = [('123109', 'DCM', 'Manual Processing'), ('123110', 'DCM', 'Artificial Intelligence')]
 
@@ -184,7 +185,8 @@ def _gen_meas(r, nr, n):
             vals = vals.astype(np.float32)
         elif not mask.any() and r.random() < 0.3:
             vals = np.round(vals).astype(np.int64)       # integer measurement values (no NaN possible)
-        out.append({'name': j % len(MEAS_NAMES), 'unit': r.randrange(len(UNITS)), 'values': vals,
+        # names are drawn with replacement: several vectors may carry the same name (the filter must return all of them, in order)
+        out.append({'name': r.choice([j % 3, j % 3, 0, 3, r.randrange(len(MEAS_NAMES))]), 'unit': r.randrange(len(UNITS)), 'values': vals,
                     'pattern': 'none' if not mask.any() else ('all' if mask.all() else pat)})
     return out
 
@@ -486,8 +488,15 @@ def _observe_group(ctx, spec, g, path, ct, reqs, pending, base):
                     ctx.fail(dict(case, measurement=j), 'name / unit of a measurement not returned', site=f'get_measurements/{path}')
             # filter by name: exactly the vectors with that name, in order
             for t in range(len(MEAS_NAMES)):
-                st2, res2 = _try(g.get_measurements, _code(MEAS_NAMES[t]))
+                # the name is asked for as a pydicom Code or as a CodedConcept under ANOTHER meaning (names are codes: C17)
+                if (t + n) % 2:
+                    from highdicom.sr.coding import CodedConcept
+                    q = CodedConcept(MEAS_NAMES[t][0], MEAS_NAMES[t][1], 'asked under another meaning')
+                else:
+                    q = _code(MEAS_NAMES[t])
+                st2, res2 = _try(g.get_measurements, q)
                 sel = [j for j, m in enumerate(spec['meas']) if m['name'] == t]
+                ctx.case(path=path + '/measurement-filter', meas_filter_hits=min(len(sel), 3))
                 if st2 != 'ok':
                     ctx.fail(dict(case, name=t), f'get_measurements(name) refused: {res2}', site=f'get_measurements/{path}')
                     continue
